@@ -35,6 +35,9 @@ CHECKS = {
  'C06': dict(cat='proof', tech='deductive: v5 segment header codec over full-domain bit-vectors (byte-exact + round trip + single-bit corruption), compute_crc24 by loop invariant against Crc.crc24, segment encode/decode and connection buffer steps with callee contracts; bounded stand-in for payload CRC32 corruption',
              text='Header encode/decode, CRC24, segment_length, segment round trip (both codecs, compressed and left-uncompressed), one step of the checksummed read path and the buffer resets are postconditions discharged for all field values / all buffered byte strings. CRC32 and the compressor are assumed (E-CRC32 probed by a bounded stand-in); chunking is verified parametrically in the chunk-size constant with bounded unrolling.',
              ref='DESIGN.md §4 C06'),
+ 'C05': dict(cat='proof', tech='deductive: representation invariant + step postcondition on one iteration of the real process_io_buffer loop for arbitrary buffered bytes; handle_pushed/process_msg dispatch postconditions',
+             text='For any buffered byte string, an iteration either delivers exactly the first complete frame (exact header fields and body, exactly its bytes removed) or changes nothing; chunking independence follows by induction over reads from the representation invariant (meta-argument).',
+             ref='DESIGN.md §4 C05'),
 }
 
 NA_REASON = {}
